@@ -10,6 +10,8 @@ import (
 	"os/exec"
 	"path/filepath"
 	"strings"
+	"syscall"
+	"unsafe"
 
 	"verifharness/mon"
 	"verifharness/world"
@@ -372,6 +374,77 @@ func c15(x *mon.Ctx) {
 	}
 	fake := filepath.Join(dir, "fake_tdx_guest")
 	_ = os.WriteFile(fake, []byte("x"), 0o644)
+	// the device node appears only after a first attempt failed (driver loaded late, container device plug): every call with
+	// an unsupported provider tries the device path as it is NOW. "Tried" is observed from outside the library: an inotify
+	// watch counts the opens of the node. (Run before any other device path was opened successfully: a library may keep a
+	// working handle.)
+	{
+		node := filepath.Join(dir, "late_tdx_guest")
+		_ = os.Remove(node)
+		prob := ""
+		if err := flag.Set("tdx_guest_device_path", node); err != nil {
+			x.Broken("cannot set -tdx_guest_device_path: " + err.Error())
+		} else if fd, err := syscall.InotifyInit1(syscall.IN_NONBLOCK | syscall.IN_CLOEXEC); err != nil {
+			x.Inconclusive("inotify unavailable: " + err.Error())
+		} else {
+			defer syscall.Close(fd)
+			_, _ = syscall.InotifyAddWatch(fd, dir, syscall.IN_OPEN)
+			opens := func() int {
+				n := 0
+				buf := make([]byte, 64*1024)
+				for {
+					k, err := syscall.Read(fd, buf)
+					if k <= 0 || err != nil {
+						return n
+					}
+					for off := 0; off+syscall.SizeofInotifyEvent <= k; {
+						ev := (*syscall.InotifyEvent)(unsafe.Pointer(&buf[off]))
+						name := strings.TrimRight(string(buf[off+syscall.SizeofInotifyEvent:off+syscall.SizeofInotifyEvent+int(ev.Len)]), "\x00")
+						if name == filepath.Base(node) && ev.Mask&syscall.IN_OPEN != 0 {
+							n++
+						}
+						off += syscall.SizeofInotifyEvent + int(ev.Len)
+					}
+				}
+			}
+			call := func() error {
+				p := &scriptProvider{supported: errors.New("configfs not available"), quote: valid, err: sentinel}
+				var rd [64]byte
+				_, err := client.GetRawQuote(p, rd)
+				return err
+			}
+			var hist []string
+			firstPresent := true
+			for step, present := range []bool{false, false, true, true} {
+				if present {
+					_ = os.WriteFile(node, []byte("x"), 0o644)
+				} else {
+					_ = os.Remove(node)
+				}
+				opens() // drain (our own WriteFile opened it)
+				err := call()
+				n := opens()
+				hist = append(hist, fmt.Sprintf("present=%v:opens=%d", present, n))
+				switch {
+				case err == nil:
+					prob = fmt.Sprintf("step %d: no usable device, yet a nil error was returned", step)
+				case present && n == 0 && firstPresent: // (a later call may legitimately use a handle it kept open)
+					prob = fmt.Sprintf("step %d: the provider reports no support and the device node exists, but it was not opened (history %v; error returned: %v): the device path is not tried", step, hist, err)
+				}
+				if present {
+					firstPresent = false
+				}
+				if prob != "" {
+					break
+				}
+			}
+			if prob != "" {
+				x.Violation("provider-unsupported", "device-node-appears-later", prob, "none", hist)
+			}
+			x.Note("provider-unsupported", "device-node-appears-later", false, false, prob == "")
+		}
+		_ = os.Remove(node)
+	}
 	for _, path := range []string{fake, filepath.Join(dir, "does-not-exist")} {
 		if err := flag.Set("tdx_guest_device_path", path); err != nil {
 			x.Broken("cannot set -tdx_guest_device_path: " + err.Error())
@@ -443,7 +516,7 @@ func c15(x *mon.Ctx) {
 	// ---- the real LinuxDevice (ioctl path) on a regular file, with the kernel's answers injected by strace
 	realDevice(x, fake)
 	x.Require("provider-supported", 4, 2, 6)
-	x.Require("provider-unsupported", 0, 0, 2)
+	x.Require("provider-unsupported", 0, 0, 3)
 	_ = world.Epoch
 }
 
